@@ -150,6 +150,33 @@ def gen_spec(rng, knobs) -> dict:
                     ref = dict(table.units[v]["ref"])
                 ctx["redefs"].append({"name": v, "factor": _num_lit(rng), "ref": ref})
         contexts.append(ctx)
+    # deliberate structures: a direct rule next to a two-step chain with another value (a path
+    # that is not shortest gives a different answer), and two different shortest chains
+    hot = []
+
+    def add_edge(si, di):
+        nonlocal rid
+        cands = [c for c in contexts if not any(r.get("_e") == (si, di) for r in c["rules"])]
+        if not cands:
+            return
+        c = rng.choice(cands)
+        r = make_rule(f"r{rid}", nodes[si], nodes[di], False, c["via"] != "file" and rng.random() < 0.5)
+        r["_e"] = (si, di)
+        rid += 1
+        c["rules"].append(r)
+
+    if contexts and len(nodes) >= 3 and rng.random() < 0.6:
+        a, b, c3 = rng.sample(range(len(nodes)), 3)
+        for e in ((a, c3), (a, b), (b, c3)):
+            add_edge(*e)
+        hot.append([nodes[a], nodes[c3]])
+        hot.append([nodes[a], nodes[b]])
+    if contexts and len(nodes) >= 4 and rng.random() < 0.5:
+        a, b, c3, d = rng.sample(range(len(nodes)), 4)
+        for e in ((a, b), (b, d), (a, c3), (c3, d)):
+            add_edge(*e)
+        hot.append([nodes[a], nodes[d]])
+    spec["hot_pairs"] = hot
     # contexts whose activation must fail (invalid redefinition at position j)
     if knobs.get("badctx", True) and rng.random() < 0.7:
         for kind in rng.sample(["undef", "prefixed", "base", "dim"], rng.randint(1, 2)):
@@ -341,6 +368,10 @@ class ProgGen:
             kb = ka
         else:
             kb = rng.choice(self.dimkeys)
+        hot = self.spec.get("hot_pairs")
+        if hot and rng.random() < (0.4 if self.prop == "C11" else 0.15):
+            a, b = rng.choice(hot)
+            ka, kb = vec_key(self.table.dimvec(a)), vec_key(self.table.dimvec(b))
         src = self.spelled(rng.choice(self.by_dim[ka]))
         dst = self.spelled(rng.choice(self.by_dim[kb]))
         forms = ["to", "to", "convert", "ito", "to_ctx", "compat_q", "compat_units"]
@@ -585,6 +616,7 @@ class CtxWorld:
             "tworeg": kr.random() < 0.2,
             "pyctx": kr.random() < 0.8,
             "badctx": True,
+            "on_redef": kr.choice(["warn", "warn", "raise", "ignore"]),
         }
         spec = gen_spec(streams.get("world"), knobs)
         pg = ProgGen(streams.get("program"), spec, knobs, self.prop)
@@ -828,7 +860,7 @@ class _Run:
         lines = render(self.spec)
         self.lines = lines
         T = Fraction if self.exact else float
-        kw = {}
+        kw = {"on_redefinition": self.knobs.get("on_redef", "warn")}
         if self.spec.get("default_system"):
             kw["system"] = self.spec["default_system"]
         try:
@@ -958,6 +990,10 @@ class _Run:
                 qs.append(["conv", "2", {bod[k]: e for k, e in vs.items()}, {bod[k]: e for k, e in vd.items()}])
         for i in range(min(6, len(t.order))):
             qs.append(["long", i])
+        if self.knobs.get("on_redef") == "raise":
+            # a registry told to refuse redefinitions keeps refusing them, whatever happened before
+            for n in names[:3]:
+                qs.append(["redef", n])
         return qs
 
     # ------------------------------------------------------------ questions
@@ -983,6 +1019,10 @@ class _Run:
                 return ["ok", sorted(norm_units(u)[0][0] for u in s)]
             if kind == "parse":
                 return ["ok", norm_units(ureg.parse_units(q[1]))]
+            if kind == "redef":
+                u = self.model.base.units[q[1]]
+                ureg.define(f"{q[1]} = [d0]" if "dim" in u else f"{q[1]} = {u['factor']} * {mono_str(u['ref'], one='1')}")
+                return ["ok", "accepted"]
             if kind == "long":
                 n, qq, uu = self.longlived[ri][q[1]]
                 r = qq.to_root_units()
